@@ -200,6 +200,7 @@ class Engine:
         self.loop_iters = {}
         self.known = {}
         self.memo = {}
+        self.nlab = smt.NLAbstraction()
 
     # ---------------------------------------------------------------- basic services
     def fresh_name(self, base):
@@ -213,7 +214,7 @@ class Engine:
         if z3.is_true(t):
             return
         self.pc.append(t)
-        self.solver.add(t)
+        self.solver_add(t)
         self.note_known(t)
 
     def note_known(self, t):
@@ -226,10 +227,21 @@ class Engine:
             for a in t.children():
                 self.note_known(a)
 
+    def solver_add(self, t):
+        """The path solver sees nonlinear products abstracted by an uninterpreted function plus sound lemmas
+        (over-approximation: 'unsat' answers stay valid; z3's nonlinear engine does not honour time-outs reliably)."""
+        try:
+            ta, lemmas = self.nlab.abstract(simp(t), self.cur_bounds())
+        except RecursionError:
+            ta, lemmas = t, []
+        self.solver.add(ta)
+        for l in lemmas:
+            self.solver.add(l)
+
     def feasible(self, extra=None):
         self.solver.push()
         if extra is not None:
-            self.solver.add(extra)
+            self.solver_add(extra)
         r = self.solver.check()
         self.solver.pop()
         return r != z3.unsat
@@ -246,6 +258,10 @@ class Engine:
         kn = self.known.get(c.get_id())
         if kn is not None and kn[0].eq(c):
             return kn[1]
+        iv = self.decide_iv(c)
+        if iv is not None:
+            self.assume(c if iv else z3.Not(c))
+            return iv
         i = len(self.trace)
         if i < len(self.prefix):
             choice = self.prefix[i]
@@ -1048,7 +1064,7 @@ class Engine:
                 self.prove(inr, "model_limit", label + " operand magnitude below 2^126")
                 break
             self.solver.push()
-            self.solver.add(z3.Not(inr))
+            self.solver_add(z3.Not(inr))
             r = self.solver.check()
             self.solver.pop()
             if r == z3.unsat:
@@ -1184,16 +1200,38 @@ class Engine:
         low = z3.Extract(bits - 1, 0, bv)
         return low if signed else z3.ZeroExt(1, low)
 
+    def cur_bounds(self):
+        """Interval facts of the current path condition, maintained incrementally (pc only grows, except for the
+        temporary guards of clause evaluation, which are handled by rebuilding)."""
+        from .intervals import Bounds, add_assertion
+        b = getattr(self, "_bounds", None)
+        n = getattr(self, "_bounds_n", 0)
+        if b is None or n > len(self.pc) or (n and not self.pc[n - 1].eq(self._bounds_last)):
+            b = Bounds()
+            n = 0
+        while n < len(self.pc):
+            add_assertion(b, self.pc[n])
+            n += 1
+        self._bounds = b
+        self._bounds_n = n
+        self._bounds_last = self.pc[n - 1] if n else None
+        return b
+
+    def decide_iv(self, c):
+        """Decision of a condition by interval analysis under the path condition (sound, incomplete)."""
+        from .intervals import decide
+        try:
+            return decide(c, self.cur_bounds())
+        except RecursionError:
+            return None
+
     def wrap_np(self, t, npk):
         """numpy wrap-around, omitted when interval analysis under the path condition shows it cannot happen."""
         from .intervals import collect_bounds, interval
         c = conc_int(t)
         if c is not None:
             return wrap(t, npk)
-        if getattr(self, "_bounds_n", -1) != len(self.pc):
-            self._bounds = collect_bounds(self.pc)
-            self._bounds_n = len(self.pc)
-        lo, hi = interval(simp(t), self._bounds)
+        lo, hi = interval(simp(t), self.cur_bounds())
         rlo, rhi = np_range(npk)
         if lo >= rlo and hi <= rhi:
             return t
@@ -1279,7 +1317,7 @@ class Engine:
 
     def implied(self, cond):
         self.solver.push()
-        self.solver.add(z3.Not(cond))
+        self.solver_add(z3.Not(cond))
         r = self.solver.check()
         self.solver.pop()
         return r == z3.unsat
